@@ -158,6 +158,17 @@ theorem remain_returns_all (p order : Pool H) (hperm : List.Perm order p) :
     (remain p order).1 = [] ∧ List.Perm (remain p order).2 (keys p) := by
   exact ⟨rfl, hperm.map _⟩
 
+/-- `GetUnverifiedTxs` on the (duplicate-free) transactions of a block: the pool loses exactly the block's entries
+whose stateful verification is older than the requested height, and every transaction is classified against the
+pool as it was before the call — absent: unverified; stale: old (re-verify); otherwise verified with the height and
+result of its first stateful validation. -/
+theorem getUnverified_classifies (p : Pool H) (txs : List H) (height : Nat) (hp : (keys p).Nodup)
+    (ht : txs.Nodup) :
+    getUnverified p txs height =
+      (p.filter (fun e => !(txs.contains e.hash && !fresh height e)),
+       txs.foldl (fun r t => classify height p t r) ⟨[], [], []⟩) :=
+  getUnverified_fold height p txs p ⟨[], [], []⟩ hp (fun _ _ => rfl) ht
+
 /-- `GetUnverifiedTxs` never adds entries: the pool afterwards is a sub-list of the pool before. -/
 theorem getUnverified_shrinks (p : Pool H) (txs : List H) (height : Nat) :
     (getUnverified p txs height).1.Sublist p := getUnverified_sublist p txs height
